@@ -190,9 +190,16 @@ def main():
         print(l)
     for m in inconclusive[:20]:
         print(f"INCONCLUSIVE {m}")
-    for v in confirmed[:10]:
-        print(f"  counterexample {v['check']}: {v.get('label')} inputs={json.dumps(v['inputs'])[:400]}")
+    shown = {}
+    for v in confirmed:
+        shown[v["check"]] = shown.get(v["check"], 0) + 1
+        if shown[v["check"]] > 3:
+            continue
+        print(f"  counterexample {v['check']}: {v.get('label')} inputs={json.dumps(v['inputs'], default=str)[:400]}")
         print(f"VIOLATION property={prop} replay={v['replay']}")
+    for c, k in shown.items():
+        if k > 3:
+            print(f"  ... {k - 3} more confirmed counterexamples for {c}")
     print(f"[{prop}] tier={a.tier} wall={wall:.1f}s translator-validation {tv_ok}/{tv_n}")
     if confirmed:
         return EXIT_VIOLATION
